@@ -273,6 +273,8 @@ pub fn nested_probe() {
                             }
                         }
                     }
+                    // (the upgrade above may have taken the probe out of the buffer, as upgrade is documented to do)
+                    let snap = rust_cc::verif::snapshot(&cc);
                     #[cfg(feature = "finalization")]
                     {
                         let r = catch_unwind(AssertUnwindSafe(|| cc.finalize_again()));
